@@ -1,5 +1,6 @@
 import Proofs.Observe.IterRun
 import Proofs.Observe.IterJoint
+import Proofs.Observe.IterCancel
 import Properties.C07
 /-!
 # C07 — the async-iteration interface of an observation (`async for … in request.observation`)
@@ -243,6 +244,17 @@ theorem C07_iter_wait_after_cancelled_wait (s : St α) (hc : s.cons = .waiting s
   · simp [hs2, St.install, St.get, List.getD_eq_getElem?_getD]
   · intro m
     simp [hs2, step, push, St.install, St.get, St.complete, finish, Fut.done, List.getD_eq_getElem?_getD]
+
+/-- **`CancelledError` comes out of `__anext__` only when the consumer was cancelled.**  Whatever is fed to the iterator
+and whatever the consumer task does, in any interleaving: the number of `CancelledError`s that come out of `__anext__`
+is at most the number of times the consumer task was cancelled.  (The general form of
+`C07_iter_wait_after_cancelled_wait`; before the `fix:` for polling consumers it was false: `[next, cancel, next]` gave
+two for one cancel.  The other iterator theorems look at the outputs with the `CancelledError`s filtered out — this
+one is about them.) -/
+theorem C07_iter_cancelled_only_when_cancelled (ops : List (Op α)) :
+    cancelledCount (outs init ops) ≤ cancelOps ops := by
+  rw [outs_init_abs]
+  exact arun_cancelled (ainit : A α) noCancelledWait_init ops
 
 -- (v) composition with the runner of `Request` ----------------------------------------------------------
 
@@ -701,6 +713,8 @@ example : outs init ([.next, .cancel, .next, .push 5, .wake] : List (Op Nat)) =
     [.cancelled, .item 5] := by decide
 example : (init : St Nat).slot < (init : St Nat).futs.length ∧
     (step (init : St Nat) .next).1.cons = .waiting (step (init : St Nat) .next).1.slot := by decide
+example : cancelledCount (outs init ([.next, .cancel, .next, .cancel, .cancel, .next, .push 1, .cancel] : List (Op Nat))) = 3 ∧
+    cancelOps ([.next, .cancel, .next, .cancel, .cancel, .next, .push 1, .cancel] : List (Op Nat)) = 4 := by decide
 example : outs init ([.next, .cancel, .next, .cancel, .next, .pushErr (.transport 1), .wake] : List (Op Nat)) =
     [.cancelled, .cancelled, .raise 1] := by decide
 example : outs init ([.next, .push 5, .cancel, .next] : List (Op Nat)) = [.cancelled, .item 5] := by
